@@ -193,15 +193,16 @@ PROPS = {
             'header, length prefix and value splitting are NOT proved: BytesMut growth / split_off are out of CBMC\'s reach)',
             'num_enum derives (IntoPrimitive / TryFromPrimitive) are inverse to each other',
         ],
-        assumptions=['round trip + strictness for 59 of the 63 kinds (34 of them have parsers of the form `.map(Constructor)?`, '
-                     'desugared by the extractor: normalisation N8), incl. the bus-listener filter codec; 4 kinds not covered '
-                     '(Connect2, ConnectReply, ConnectReply2, EmitBusEvent)'],
+        assumptions=['round trip + strictness for 61 of the 63 kinds (34 of them have parsers of the form `.map(Constructor)?`, '
+                     'desugared by the extractor: normalisation N8), incl. the bus-listener filter codec; 2 kinds not covered '
+                     '(ConnectReply: an enum whose discriminant type shares its name with ConnectReply2\'s; EmitBusEvent: `.into()` '
+                     'conversions)'],
         undecided_clauses=[
             'byte level of whole frames: 4-byte length prefix equals the frame length, strict parsing of arbitrary bytes',
-            'Connect2 / ConnectReply / ConnectReply2 (connect data values) and EmitBusEvent; the Message dispatcher',
+            'ConnectReply and EmitBusEvent; the Message dispatcher',
         ],
-        explanation='per message kind, on the verbatim functions: (59 of 63 kinds) serialize_message writes the kind, exactly '
-                    'the kind\'s field sequence and the payload unchanged; deserialize_message (all 59) accepts exactly the '
+        explanation='per message kind, on the verbatim functions: (61 of 63 kinds) serialize_message writes the kind, exactly '
+                    'the kind\'s field sequence and the payload unchanged; deserialize_message (all 61) accepts exactly the '
                     'frames of that kind whose field sequence is the encoding of some message, with nothing left over, and '
                     'returns that message with the identical payload (round trip and strictness at the level of fields, '
                     'against an assumed field-sequence model of the primitives); MessageBufExt varint/discriminant bytes (Kani)',
